@@ -71,11 +71,16 @@ func genC12() *rapid.Generator[*Spec] {
 		used := map[string]bool{}
 		for i := 0; i < nf; i++ {
 			var name string
-			style := x.pick([]string{"exported", "exported", "exported", "unexported", "twin", "embedded"}, "fname")
+			style := x.pick([]string{"exported", "exported", "exported", "unexported", "twin", "embedded", "blank"}, "fname")
+			if style == "blank" && (used["_"] || nf == 1) {
+				style = "exported"
+			}
 			emb := false
 			switch style {
 			case "exported":
 				name = fmt.Sprintf("Fld%d", i)
+			case "blank":
+				name = "_" // padding: never injected, cannot be named
 			case "unexported":
 				name = fmt.Sprintf("fld%d", i)
 			case "twin":
@@ -164,7 +169,7 @@ func genC12() *rapid.Generator[*Spec] {
 			case "promoted", "unknown-tok":
 				names = append(names, "Tok")
 			case "unknown":
-				names = append(names, x.pick([]string{"Nope", "tok", "", " ", "S", "**"}, "unknownname"))
+				names = append(names, x.pick([]string{"Nope", "tok", "", " ", "S", "**", "_", "_"}, "unknownname"))
 			case "dup":
 				if len(names) > 0 {
 					names = append(names, names[0])
